@@ -1,8 +1,8 @@
 """C10 -- parameter expansion: current values, once, terminates.
 L1: expand_env (in-process, hooks) vs the extracted model on every word of <= 3 (quick) / 4
 (thorough) segments plus random words to 6 segments, under 10 variable environments, in the
-unquoted / double-quoted / single-quoted form; inputs on which the model diverges are sent to
-the implementation only one at a time under a timeout (expected: the timeout).  The property's
+unquoted / double-quoted / single-quoted form; inputs on which the model diverges are sampled and sent to
+the implementation, whose per-case watchdog must answer HANG.  The property's
 oracle (one left-to-right pass, written independently here and also taken from the extracted
 den_pieces) is applied to the implementation's output.
 L0: env_in_token / expand_one_env on every string up to length 4/5 over the characters the six
@@ -17,7 +17,7 @@ EXTRACT = ["C10"]
 BINS = ["c10"]
 NEEDS_CICADA = True
 ALLOWED_AXIOMS = []
-PINNED = ["C10_full", "C10_refuted", "C10_partial", "C10_diverges", "C10_single_quoted",
+PINNED = ["C10_full", "C10_refuted", "C10_partial", "C10_diverges", "C10_single_quoted", "C10_do_expansion_inert",
           "C10_refuted_rescan", "C10_refuted_self_reference", "C10_refuted_newline", "C10_refuted_unterminated"]
 TRUSTED = [
     "Coq 8.16.1 kernel (coqc; coqchk in thorough); vm_compute only in concrete witnesses / non-vacuity examples",
@@ -199,13 +199,17 @@ def run(ctx, res):
     run_ix = [i for i, a in enumerate(m1) if a != "HANG"]
     p1b = C.write_cases("c10_l1_run.txt", [lines[i] for i in run_ix])
     i1 = dict(zip(run_ix, C.run_impl(ctx.bins["c10"], p1b, len(run_ix), timeout=600)))
-    nprobe = 24 if ctx.thorough else 8
+    # inputs on which the model diverges: a sample goes to the implementation, whose per-case watchdog
+    # (hx::main_loop) answers HANG after HX_CASE_TIMEOUT_MS and C.run_impl restarts the shard
+    nprobe = 320 if ctx.thorough else 48
     probe = rng.sample(hang_ix, min(nprobe, len(hang_ix)))
     from concurrent.futures import ThreadPoolExecutor
-    with ThreadPoolExecutor(max_workers=C.NCPU) as ex:
-        probed = list(ex.map(lambda i: X.hang_probe(ctx.bins["c10"], lines[i], timeout=4), probe))
-    for i, r in zip(probe, probed):
-        i1[i] = r
+    if probe:
+        pp = C.write_cases("c10_l1_probe.txt", [lines[i] for i in probe])
+        probed = C.run_impl(ctx.bins["c10"], pp, len(probe), shards=min(C.NCPU, len(probe)), timeout=900,
+                            env={"HX_CASE_TIMEOUT_MS": "1500"})
+        for i, r in zip(probe, probed):
+            i1[i] = r
     # reference via the extracted den_pieces for the words that are segment lists
     refs = {}
     dl, dix = [], []
@@ -254,6 +258,10 @@ def run(ctx, res):
                         failing_input=False, note="c10_dom (Coq) and the driver's class predicate disagree")
         if a != b:
             # model and implementation differ
+            if got == exp and cls and any(c in known or (c + "_hang") in known for c in cls):
+                # inside a recorded class the implementation now meets the oracle: a repair (DESIGN 4.5)
+                res.extra["known_class_cases_meeting_the_oracle"] = res.extra.get("known_class_cases_meeting_the_oracle", 0) + 1
+                continue
             if got == exp:
                 violate(kind="correspondence", layer="L1", input=w, tag=tg, env=env_desc, model=a, impl=b,
                         failing_input=False, note="implementation meets the oracle here but differs from the model")
@@ -291,7 +299,7 @@ def run(ctx, res):
         line = C.case("env", world_field(env, 0), str(FUEL), X.toks_field([(tg, w)]))
         pm = C.write_cases("c10_replay.txt", [line])
         mo = C.run_model(ctx.model["C10"], pm)[0]
-        r = X.hang_probe(ctx.bins["c10"], line, timeout=4)
+        r = C.run_impl(ctx.bins["c10"], pm, 1, shards=1, env={"HX_CASE_TIMEOUT_MS": "2500"})[0]
         _, r = split_pid(r)
         got = "HANG" if r == "HANG" else tok_text(r)
         mgot = "HANG" if mo == "HANG" else tok_text(mo)
